@@ -950,6 +950,9 @@ func (w *_assemblerRepr) AssignString(s string) error {
 		}
 		members := w.schemaType.(*schema.TypeEnum).Members()
 		for _, member := range members {
+			if mapped, ok := stg[member]; ok && mapped != member {
+				continue // this member is represented by another string; its name is not a valid representation
+			}
 			if s == member {
 				return (*_assembler)(w).AssignString(member)
 			}
@@ -1034,6 +1037,13 @@ func (w *_structAssemblerRepr) AssembleValue() datamodel.NodeAssembler {
 	case schema.StructRepresentation_Map:
 		key := w.curKey.val.String()
 		revKey := inboundMappedKey(w.schemaType, stg, key)
+		if revKey == key {
+			// Not the serial key of any field.
+			// It must not be mistaken for the type-level name of a field that is renamed in the representation.
+			if field := w.schemaType.Field(key); field != nil && stg.GetFieldKey(*field) != key {
+				return _errorAssembler{fmt.Errorf("invalid key: %q is not a key in the representation of type %s (field %q is serialized as %q)", key, w.schemaType.Name(), key, stg.GetFieldKey(*field))}
+			}
+		}
 		w.curKey.val.SetString(revKey)
 
 		valAsm := (*_structAssembler)(w).AssembleValue()
